@@ -123,6 +123,12 @@ def chansIn (m : Mod) (rows : List Nat) : List ChanDesc :=
 def nodeStatesIn (m : Mod) (rows : List Nat) : List String :=
   (chansIn m rows).flatMap (fun c => c.states.map (·.1)) ++ ["v", "i"] ++ (chansIn m rows).map (·.current)
 def edgeStates (m : Mod) : List String := m.syns.flatMap (fun s => s.states.map (·.1)) ++ m.syns.map (fun s => "i_" ++ s.name)
+/-- `_get_state_names` of a VIEW, edge part: a view keeps only the synapse types that have an edge in view
+(`_set_synapses_in_view`), so only THEIR states count; the synaptic current names are not filtered -/
+def synsIn (m : Mod) (es : List Nat) : List SynDesc :=
+  m.syns.filter (fun s => es.any (fun e => ((m.edges[e]?).map (·.ty == s.name)).getD false))
+def edgeStatesIn (m : Mod) (es : List Nat) : List String :=
+  (synsIn m es).flatMap (fun s => s.states.map (·.1)) ++ m.syns.map (fun s => "i_" ++ s.name)
 
 /-- `view.record(state)`: append `(index, state)` for the rows (node state) or edges (edge state) in view, drop duplicates
 (first occurrence wins, order kept) -/
@@ -132,7 +138,7 @@ def dedup : List (Nat × String) → List (Nat × String)
 
 def record (m : Mod) (rows es : List Nat) (state : String) : Except String Mod :=
   if (nodeStatesIn m rows).contains state then .ok { m with recs := dedup (m.recs ++ rows.map (fun r => (r, state))) }
-  else if (edgeStates m).contains state then .ok { m with recs := dedup (m.recs ++ es.map (fun e => (e, state))) }
+  else if (edgeStatesIn m es).contains state then .ok { m with recs := dedup (m.recs ++ es.map (fun e => (e, state))) }
   else .error "keyerror"
 
 def deleteRecordingsAll (m : Mod) : Mod := { m with recs := [] }
@@ -140,7 +146,7 @@ def deleteRecordingsAll (m : Mod) : Mod := { m with recs := [] }
 /-- `view.stimulate / view.clamp` (`_external_input`): one data row per index in view (a single row is repeated);
 appended to an existing key (after the N1 fix: edge indices for edge states) -/
 def externalInput (m : Mod) (rows es : List Nat) (key : String) (data : List (List Nat)) : Except String Mod :=
-  if !((nodeStatesIn m rows).contains key || (edgeStates m).contains key) then .error "keyerror" else
+  if !((nodeStatesIn m rows).contains key || (edgeStatesIn m es).contains key) then .error "keyerror" else
   let inds := if (nodeStatesIn m rows).contains key then rows else es
   if !(data.length == 1 || data.length == inds.length) then .error "assert" else
   let d := if data.length == inds.length then data else List.replicate inds.length (data.headD [])
